@@ -56,7 +56,9 @@ TRUSTED = ["stage A drives IPoE at function level: the release sequences of inte
            "lease expiry is produced by setting Lease.ExpireTime into the past through an injected accessor",
            "stage B: the mapping from component events to model ops (gates: approved / in flight / created / "
            "pending) lives in ocaml/C02_run.ml, not in Gallina; a wrong mapping shows as a mismatch",
-           "stage B fakes: event bus, config, cache, southbound, in-memory opdb"]
+           "stage B fakes: event bus, config, cache, southbound, in-memory opdb",
+           "lease expiry: the loop body of cleanupSessions sits behind a 5-minute ticker; the harness transcribes it "
+           "(reap decision = the real sessionPastLease / half-open idle rule on clocks moved into the past)"]
 ASSUMPTIONS = ["theorems assume pools of one family and one VRF have pairwise disjoint ranges and, for PD pools, a "
                "well-formed geometry (C02_config_pools_wf discharges pool_wf/resettable from it)",
                "each handler runs atomically (goroutine-per-packet interleavings inside one handler are not modelled)"]
@@ -742,7 +744,20 @@ def signature(case, impl, models):
     if d0 and " | !dup " in d0[2] and d0[2].split(" | !dup ")[0] == d0[1]:
         # implementation and Repaired model agree up to here, and the state they agree on violates the property
         # (monitor in ocaml/C02_run.ml, run on every case): never a known finding
-        return "monitor:" + d0[2].split(" | !dup ")[1].split(":")[0]
+        mk = d0[2].split(" | !dup ")[1]
+        fam = mk.split(":")[0]
+        if fam in ("4", "6"):
+            a = int(mk.split(":")[1].split("/")[0])
+            t = segs(case)[0].split()
+            per_vrf = {}
+            for i, tok in enumerate(t):
+                if tok == "P" + fam and int(t[i + 4]) <= a <= int(t[i + 5]):
+                    per_vrf[t[i + 3]] = per_vrf.get(t[i + 3], 0) + 1
+            if any(n > 1 for n in per_vrf.values()):
+                # the configuration has two pools of one family and one VRF that both contain the address: the
+                # hypothesis DISJ of C02_unique is violated by the configuration itself, which /repo accepts
+                return "pools-overlap-within-vrf-accepted"
+        return "monitor:" + fam
     if d0 and pd_len_overlap(case, d0[0]) and impl != models.get(_v(FIXED | {10})):
         # the op supplies an AAA prefix that is no delegation of any PD pool (other length) but overlaps a pool network:
         # the code accepts it (d5: untracked, d10: not seen as a conflict), the Repaired model refuses it
